@@ -368,8 +368,10 @@ def _check(case):
                 out.labels.append("S_compiled")
 
                 def s_level(v):
-                    agree = "".join(lv for lv in ("P", "T") if v in seen[lv] and v not in wrong[lv])
-                    return "S!=" + agree if agree else "S"
+                    for lv in ("P", "T"):  # name the level that had the right value for this valuation
+                        if v in seen[lv] and v not in wrong[lv]:
+                            return "S!=" + lv
+                    return "S"
 
                 runner = _sim_crc if name == "crc" else _sim_comb
                 s_done, s_nontrivial = runner(out, h, name, c, kinds, vals, vhdl, s_level, finding)
